@@ -137,7 +137,10 @@ class LedgerObs(Observer):
             Tso = post['duct_surf'][-1, 1]
         else:
             kind = reg.model if reg.model == '6node' else 'simple'
-            hh = pre.htc
+            # the un-rodded models refresh their parameters at the start of
+            # the step they are used in: the coefficient of this step is the
+            # one found after the call
+            hh = reg.coolant_params['htc']
             if not adiabatic:
                 if kind == '6node':
                     # coolant is advanced first, with the previous wall
